@@ -75,6 +75,8 @@ pub struct Plan {
     pub drain_before_end: bool,
     pub jitter_per_mille: u64,
     pub agent_jitter_per_mille: u64,
+    /// Fault injection: from this mutating store call on, the store refuses (and keeps nothing).
+    pub store_fails_from: Option<usize>,
 }
 
 pub const KEYS: [&str; 4] = ["k0", "k1", "k2", "k3"];
@@ -280,6 +282,7 @@ pub fn plan(rng: &mut Rng, focus: Focus, lanes: &[LaneSpec], incarnation: u32, m
         drain_before_end: rng.chance(1, 2),
         jitter_per_mille: *rng.pick(&[0u64, 0, 100, 300]),
         agent_jitter_per_mille: *rng.pick(&[0u64, 0, 100, 300]),
+        store_fails_from: if rng.chance(1, 10) { Some(rng.usize_below(16)) } else { None },
     }
 }
 
@@ -319,5 +322,6 @@ pub fn probe_plan(rng: &mut Rng, focus: Focus, lanes: &[LaneSpec], incarnation: 
         drain_before_end: true,
         jitter_per_mille: 0,
         agent_jitter_per_mille: 0,
+        store_fails_from: None,
     }
 }
